@@ -150,7 +150,20 @@ def zoo():
         m.e1 = Eqn("e1", m.g * m.x ** 2 - m.b)
         return m, "AE"
 
-    return dict(ae_trigger_smooth=ae_trigger_smooth, ae_basic=ae_basic, ae_slices=ae_slices, ae_piecewise=ae_piecewise, dae_ts=dae_ts,
+    def ae_logic():
+        # the comparison / logic helpers applied directly to declared parameters (0/1 switches) and variables: the numerical helpers
+        # receive the caller's arrays themselves, not intermediate results
+        from Solverz.sym_algebra.functions import Not, And, Or, GreaterThan, LessThan, In
+        m = Model()
+        m.x = Var("x", [0.4, -1.3, 2.5])
+        m.blocked = Param("blocked", [0.0, 1.0, 0.0])
+        m.open_ = Param("open_", [1.0, 1.0, 0.0])
+        m.lim = Param("lim", [1.0, 1.0, 2.0])
+        m.e1 = Eqn("e1", m.x ** 2 * Not(m.blocked) + m.x * And(m.open_, GreaterThan(m.x, m.lim)) - Or(m.blocked, m.open_) * LessThan(m.x, m.lim)
+                   - In(m.x, -m.lim, m.lim) + 0.5)
+        return m, "AE"
+
+    return dict(ae_logic=ae_logic, ae_trigger_smooth=ae_trigger_smooth, ae_basic=ae_basic, ae_slices=ae_slices, ae_piecewise=ae_piecewise, dae_ts=dae_ts,
                 dae_interleaved=dae_interleaved, ae_consts=ae_consts, ae_trigger_builtins=ae_trigger_builtins, dae_ts_index=dae_ts_index, dae_awu=dae_awu, fdae_heat=fdae_heat, ae_trigger=ae_trigger)
 
 
